@@ -209,7 +209,17 @@ def detail_of(ob, at, u, fname):
             return "thread-local-redeclared"
         return ""
     if ob == "InstrClassOK":
-        return ",".join(sorted(at)[:3])
+        ops = ",".join(sorted(at)[:3])
+        # C10's open finding R_array_size_zero: a zero-length array type is accepted, its size 0 is taken for "variable"
+        # (u.array.size == NULL) and `sizeof` yields no value: the consuming instruction is printed with one operand
+        f = next((g for g in u.mod["funcs"] if g["name"] == fname), None)
+        src = u.src if isinstance(u.src, str) else ""
+        two = {"add", "sub", "mul", "div", "udiv", "rem", "urem", "and", "or", "xor", "shl", "shr", "sar"}
+        short = {i["op"] for b in (f["blocks"] if f else []) for i in b["insts"]
+                 if (i["op"] in two or i["op"].startswith("c") and i["op"] != "call" and i["op"] != "cast" and i["op"] != "copy") and len(i["args"]) == 1}
+        if short and set(at) <= short and re.search(r"\[\s*0\s*\]", src) and "sizeof" in src:
+            return ops + ":sizeof-zero-length-array"
+        return ops
     return ""
 
 
@@ -386,6 +396,8 @@ PINNED = [   # the minimal failing input of every known finding (so that the fin
                           "int twice(int c) { if (c) { puts(__func__); } { { return __func__[1] + (int)sizeof __func__; } } }\n"
                           "int thrice(int c) { while (c--) puts(__func__); puts(\"lit\"); puts(\"lit\"); return __func__[0] + (c ? __func__[2] : 0); }\n"
                           "int stat(int c) { static int n; static const char *s = \"lit\"; n++; { static int n; n += c; } n++; return n + s[0] + (int[2]){1, c}[1] + (int[2]){1, c}[0]; }\n"),
+    # C10's open finding (zero-length array types accepted) seen through C03: sizeof yields no value
+    ("sizeof-zero-length-array", "long f(long x){ return x + sizeof(int[0]); }\n"),
     # wide arrays filled exactly by a wide literal (DataSize through the H6-lite sizes): top level, member, 2-D row
     ("wide-exact-fit", "unsigned short a[2] = u\"ab\"; unsigned b[1] = U\"a\"; struct { unsigned short s[2]; char c; } c = {u\"ab\", 1};\n"
                        "unsigned short d[2][2] = {u\"ab\", u\"c\"}; unsigned e[2][1] = {U\"a\", U\"b\"}; unsigned short f[3] = u\"ab\";\n"
